@@ -220,15 +220,30 @@ def toml_ok(v, top=True):
     return True
 
 
-def dump(fmt, docs, **kw):
+def dump(fmt, docs, escape_dollar=False, bool_case=None, **kw):
+    """escape_dollar: every `$` is written as the escape `\\u0024` (JSON strings, TOML basic strings; YAML files are then written as
+    JSON text, which is YAML with double-quoted scalars): the decoded value is the same, the file holds no `$` byte.
+    bool_case: a random.Random; YAML booleans are then written in the other core-schema spellings too (True, TRUE, False, FALSE)."""
     if fmt in ("json", "jsonl"):
-        return dump_json(docs)
+        out = dump_json(docs)
+        return out.replace("$", "\\u0024") if escape_dollar else out
     if fmt == "json-pretty":
-        return dump_json(docs, pretty=True)
+        out = dump_json(docs, pretty=True)
+        return out.replace("$", "\\u0024") if escape_dollar else out
     if fmt in ("yaml", "yml"):
-        return dump_yaml(docs, **kw)
+        if escape_dollar:
+            return "---\n".join(json.dumps(d, ensure_ascii=False) + "\n" for d in docs).replace("$", "\\u0024")
+        if bool_case is not None:
+            kw.setdefault("flow", False)        # block style throughout: every boolean sits on a line of its own
+        out = dump_yaml(docs, **kw)
+        if bool_case is not None:
+            # only a line that is nothing but indentation, list dashes, an optional simple key and the boolean
+            out = re.sub(r"(?m)^(\s*(?:- )*(?:[A-Za-z0-9_$.]+: )?)(true|false)$", lambda m: m.group(1) + bool_case.choice(
+                [m.group(2), m.group(2).capitalize(), m.group(2).upper()]), out)
+        return out
     if fmt == "toml":
-        return dump_toml(docs, **kw)
+        out = dump_toml(docs, **kw)
+        return out.replace("$", "\\u0024") if escape_dollar else out
     raise ValueError(fmt)
 
 
